@@ -223,3 +223,72 @@ mod syms {
 pub fn available() -> bool {
     cfg!(all(feature = "interpose", not(miri)))
 }
+
+/// Net effect of a log of mmap/munmap events on the address space: the page-granular pieces that
+/// the logged successful mmaps created and that the logged munmaps have not removed again.
+/// (Rules about mappings are stated on this net effect, not on the number or sizes of the calls:
+/// an implementation may over-allocate and trim, or release a mapping in several calls.)
+#[derive(Clone, Debug, Default)]
+pub struct Pieces {
+    /// disjoint, sorted [start, end)
+    pub v: Vec<(usize, usize)>,
+}
+
+fn page_up(x: usize) -> usize {
+    x.div_ceil(4096) * 4096
+}
+
+impl Pieces {
+    pub fn add(&mut self, start: usize, len: usize) {
+        let (s, e) = (start, start + page_up(len.max(1)));
+        // a new mapping replaces whatever was there
+        self.remove(s, e - s);
+        self.v.push((s, e));
+        self.v.sort();
+    }
+    pub fn remove(&mut self, start: usize, len: usize) {
+        let (s, e) = (start, start + page_up(len.max(1)));
+        let mut out = vec![];
+        for &(a, b) in &self.v {
+            if b <= s || a >= e {
+                out.push((a, b));
+            } else {
+                if a < s {
+                    out.push((a, s));
+                }
+                if b > e {
+                    out.push((e, b));
+                }
+            }
+        }
+        self.v = out;
+    }
+    pub fn apply(&mut self, log: &[Ev]) {
+        for e in log {
+            match e {
+                Ev::Mmap { ret, len, errno: 0, .. } => self.add(*ret, *len),
+                Ev::Munmap { addr, len, ret: 0, .. } => self.remove(*addr, *len),
+                _ => {}
+            }
+        }
+    }
+    /// the parts of [start, start+len) that are covered
+    pub fn covered(&self, start: usize, len: usize) -> Vec<(usize, usize)> {
+        let (s, e) = (start, start + len);
+        self.v.iter().filter(|(a, b)| *b > s && *a < e).map(|(a, b)| ((*a).max(s), (*b).min(e))).collect()
+    }
+    pub fn covers(&self, start: usize, len: usize) -> bool {
+        let mut cur = start;
+        let end = start + len;
+        for (a, b) in self.covered(start, len) {
+            if a > cur {
+                return false;
+            }
+            cur = cur.max(b);
+        }
+        cur >= end
+    }
+    pub fn total(&self) -> usize {
+        self.v.iter().map(|(a, b)| b - a).sum()
+    }
+}
